@@ -23,7 +23,7 @@ ASSUMPTIONS = [
     'rows whose mapped fields are all null (documented concatenate assertion) are not generated',
 ]
 REQUIRED_COUNTERS = ['row_ids_accounted', 'untouched_resources_compared']
-FAMILIES = ['concatenate', 'duplicate', 'duplicate_alias', 'delete_resource', 'append', 'rename']
+FAMILIES = ['concatenate', 'duplicate', 'duplicate_alias', 'delete_resource', 'append', 'rename', 'step_reuse']
 D = decimal.Decimal
 NAMES = ['r0', 'r1', 'r2', 'r3', 'r4']
 
@@ -70,9 +70,66 @@ def make_pkg(rng, nres, sizes=(0, 1, 3, 100, 101), same_schema=False):
     return names, fields, tables
 
 
+def run_step_reuse(case, rng):
+    """ONE step object (these steps are plain closures) used in two flows over different packages: whatever it
+    resolved for the first package (default source, default target ...) must not stick."""
+    d = lab.df()
+    counters = {'row_ids_accounted': 0, 'untouched_resources_compared': 0}
+    cov = {'config': {}}
+    viol = []
+    kind = rng.choice(['duplicate_defaults', 'duplicate_to_end', 'concatenate_default_target', 'delete_by_index',
+                       'delete_by_regex'])
+    cov['config']['step_reuse/' + kind] = 1
+    F = [{'name': 'rid', 'type': 'string'}, {'name': 'x', 'type': 'integer'}]
+
+    def pkg(prefix, n):
+        return [(prefix + str(j), [{'rid': '%s%d:%d' % (prefix, j, i), 'x': i} for i in range(rng.choice([1, 3, 101]))])
+                for j in range(n)]
+    p1, p2 = pkg('a', rng.choice([2, 3])), pkg('b', rng.choice([2, 3]))
+    step = {'duplicate_defaults': lambda: d.duplicate(),
+            'duplicate_to_end': lambda: d.duplicate(duplicate_to_end=True),
+            'concatenate_default_target': lambda: d.concatenate({'rid': [], 'x': []}),
+            'delete_by_index': lambda: d.delete_resource(0),
+            'delete_by_regex': lambda: d.delete_resource('.0')}[kind]()
+    cfg = {'kind': kind, 'first': [n for n, _ in p1], 'second': [n for n, _ in p2]}
+
+    def expected(p):
+        names = [n for n, _ in p]
+        rows = dict(p)
+        if kind == 'duplicate_defaults':
+            return [names[0], names[0] + '_copy'] + names[1:], dict(rows, **{names[0] + '_copy': rows[names[0]]})
+        if kind == 'duplicate_to_end':
+            return names + [names[0] + '_copy'], dict(rows, **{names[0] + '_copy': rows[names[0]]})
+        if kind == 'concatenate_default_target':
+            return ['concat'], {'concat': [r for n in names for r in rows[n]]}
+        return names[1:], {n: rows[n] for n in names[1:]}
+    for label, p in (('first', p1), ('second', p2)):
+        got = lab.run([lab.source(n, F, r) for n, r in p] + [step])
+        if not got.ok:
+            viol.append({'kind': 'unexpected_error', 'mech': 'step_reuse/' + kind, 'family': 'step_reuse',
+                         'msg': '%r: %s use of the step object failed: %s' % (cfg, label, got.errstr()), 'config': cfg})
+            break
+        en, er = expected(p)
+        counters['untouched_resources_compared'] += len(en)
+        if got.names != en:
+            viol.append({'kind': 'resource_order', 'mech': 'step_reuse/' + kind, 'family': 'step_reuse',
+                         'msg': '%r: %s use: resources %r expected %r' % (cfg, label, got.names, en), 'config': cfg})
+            break
+        for n, rows in zip(got.names, got.results):
+            counters['row_ids_accounted'] += len(rows)
+            if [r.get('rid') for r in rows] != [r['rid'] for r in er[n]]:
+                viol.append({'kind': 'row_ids', 'mech': 'step_reuse/' + kind, 'family': 'step_reuse',
+                             'msg': '%r: %s use: resource %s holds %d rows %r..., expected %d' %
+                             (cfg, label, n, len(rows), [r.get('rid') for r in rows][:3], len(er[n])), 'config': cfg})
+                break
+    return dict(nontrivial=True, violations=viol, cov=cov, counters=counters, sample={'family': 'step_reuse', 'config': cfg})
+
+
 def run_case(case):
     fam = case['family']
     rng = boot.rng(case['seed'], 'C16', fam, case['idx'])
+    if fam == 'step_reuse':
+        return run_step_reuse(case, rng)
     d = lab.df()
     counters = {'row_ids_accounted': 0, 'untouched_resources_compared': 0}
     cov = {'config': {}}
@@ -257,7 +314,14 @@ def run_case(case):
     elif fam == 'append':
         kind = rng.choice(['iterable', 'iterable_after_delete', 'load_tuple', 'sources', 'generator'])
         cov['config']['append/' + kind] = 1
-        new_rows = [{'rid': 'new:%d' % i, 'q': rng.choice([1, 2, None])} for i in range(rng.choice([0, 1, 5, 101]))]
+        new_rows = [{'rid': 'new:%d' % i, 'q': rng.choice([1, 2, None])} for i in range(rng.choice([0, 1, 5, 101, 150]))]
+        exotic = kind in ('iterable', 'generator', 'iterable_after_delete') and rng.random() < 0.4
+        if exotic:
+            import datetime
+            # python values the inference has no Table Schema type for: the resource is still appended, with all rows
+            for i, r in enumerate(new_rows):
+                r['odd'] = [datetime.time(1, 2, 3), (1, 2), datetime.timedelta(seconds=5), None][i % 4]
+            cov['config']['append/exotic_values'] = 1
         cfg['kind'] = kind
         if kind == 'iterable_after_delete' and nres >= 2:
             victim = rng.choice(names)
